@@ -28,6 +28,7 @@ class VCtx(Ctx):
         self.assert_as_branch = False
         self.results = {}
         self.fun_reports = []
+        self.entries = {}
 
     def clause_ast(self, text):
         n = self._clause_cache.get(text)
@@ -166,6 +167,7 @@ def verify_function(ctx, relpath, qual, canary=True):
         st.assume(eng.ev_clause(cl, st, fr))
     fr.spec_only = False
     fr.entry = st.fork()
+    ctx.entries[relpath + '::' + qual] = fr.entry
     report['pre_satisfiable'] = smt.quick_sat(st.pc, 5000)
     try:
         outs = eng.run(node.body, st, fr)
